@@ -469,6 +469,11 @@ def run_case(spec, work):
             idx = [i for i in range(n_cells) if rng.random() < 0.6]
             if not idx:
                 idx = [0]
+            unl = [i for i, l in enumerate(labels) if l is None]
+            if si == 1 and unl and rng.random() < 0.5:
+                # a dataset none of whose cells is named by the taxonomy
+                idx = unl
+                ctx.bump('datasets_without_labelled_cells')
             p = work / f'ds_{si}.h5ad'
             mapworld.write_h5ad(p, X[idx], [cells[i] for i in idx], genes,
                                 encoding='csr')
